@@ -320,6 +320,63 @@ func (o *Once) Do(f func()) {
 	}
 }
 
+// OnceValue mirrors sync.OnceValue on the scheduler-aware Once (a panic of f is repeated by every call, as there).
+func OnceValue[T any](f func() T) func() T {
+	var (
+		o      Once
+		valid  bool
+		p      any
+		result T
+	)
+	g := func() {
+		defer func() {
+			p = recover()
+			if !valid {
+				panic(p)
+			}
+		}()
+		result = f()
+		f = nil
+		valid = true
+	}
+	return func() T {
+		o.Do(g)
+		if !valid {
+			panic(p)
+		}
+		return result
+	}
+}
+
+// OnceValues mirrors sync.OnceValues.
+func OnceValues[T1, T2 any](f func() (T1, T2)) func() (T1, T2) {
+	var (
+		o     Once
+		valid bool
+		p     any
+		r1    T1
+		r2    T2
+	)
+	g := func() {
+		defer func() {
+			p = recover()
+			if !valid {
+				panic(p)
+			}
+		}()
+		r1, r2 = f()
+		f = nil
+		valid = true
+	}
+	return func() (T1, T2) {
+		o.Do(g)
+		if !valid {
+			panic(p)
+		}
+		return r1, r2
+	}
+}
+
 // OnceFunc mirrors sync.OnceFunc.
 func OnceFunc(f func()) func() {
 	var o Once
